@@ -175,7 +175,9 @@ func (ch validatorCreateChange) dirtied() *common.Address {
 }
 
 func (ch validatorDeleteChange) revert(s *StateDB) {
+	ch.oldVal.deleted = false
 	s.setValidator(ch.oldVal)
+	s.incrValidatorsStat(ch.oldVal)
 }
 
 func (ch validatorDeleteChange) dirtied() *common.Address {
